@@ -96,6 +96,69 @@ def near_boundary(x, rounding, band=Fraction(1, 10 ** 8)):
     return d < band
 
 
+# ----------------------------------------------------------------------------- exact evaluation of the outputs inside Coq (Model/StructureQ.v)
+QOK = "(Ok [[1]%nat])"
+
+
+def qmat(a):
+    return C.q_list([float(x) for x in np.asarray(a, dtype=float).ravel()])
+
+
+def qorth_lit(cid, M, tol=1e-8):
+    """M: 2-D array with (claimed) orthonormal columns"""
+    M = np.asarray(M, dtype=float)
+    return f"({cid}%N, (QOrth {C.nat(M.shape[1])} {qmat(M)} {C.q(tol)}), {QOK})"
+
+
+def qtucker_lit(cid, X, core, factors, modes, tol_orth=1e-8):
+    """core = X x_m U_m^T over `modes`; the other modes get the identity"""
+    X = np.asarray(X, dtype=float)
+    full = [np.eye(d) for d in X.shape]
+    for m, f in zip(modes, factors):
+        full[m] = np.asarray(f, dtype=float)
+    ranks = [f.shape[1] for f in full]
+    tol_proj = 1e-8 * max(1.0, float(np.max(np.abs(X))) if X.size else 1.0)
+    fl = "[" + "; ".join(qmat(f) for f in full) + "]"
+    return (f"({cid}%N, (QTucker {C.nat_list(list(X.shape))} {C.nat_list(ranks)} {qmat(X)} {qmat(core)} {fl} {C.q(tol_orth)} {C.q(tol_proj)}), {QOK})")
+
+
+def qcpnorm_lit(cid, w, fs, wout, fout):
+    R = fs[0].shape[1]
+    scaled = [np.asarray(f, dtype=float) for f in fs]
+    scaled[0] = scaled[0] * (np.ones(R) if w is None else np.asarray(w, dtype=float))
+    scales = [np.linalg.norm(f, axis=0) for f in scaled]                       # oracle tape (sqrt); its equation is checked in Coq
+    wl = "None" if w is None else f"(Some {qmat(w)})"
+    return (f"({cid}%N, (QCpNorm {C.nat(R)} {wl} [{'; '.join(qmat(f) for f in fs)}] [{'; '.join(qmat(x) for x in scales)}] {C.q(1e-9)} "
+            f"{qmat(wout)} [{'; '.join(qmat(f) for f in fout)}]), {QOK})")
+
+
+def q_cases_for(case, out, cid0):
+    """Gallina cases that re-evaluate the canonical-form predicates of one decomposition output exactly; small outputs only"""
+    kind, s, kw = case["kind"], case["shape"], case["kw"]
+    lits = []
+    if kind == "DTt":
+        for f in out.factors[:-1]:
+            if f.size <= 120:
+                lits.append(lambda cid, f=f: qorth_lit(cid, f.reshape(-1, f.shape[2])))
+    elif kind == "DTr":
+        n, m = len(s), kw.get("mode", 0)
+        f0 = out.factors[m]
+        if f0.size <= 120:
+            lits.append(lambda cid: qorth_lit(cid, np.transpose(f0, (1, 0, 2)).reshape(f0.shape[1], -1)))
+        for j in range(1, n - 1):
+            f = out.factors[(m + j) % n]
+            if f.size <= 120:
+                lits.append(lambda cid, f=f: qorth_lit(cid, f.reshape(-1, f.shape[2])))
+    elif kind == "DParafac2":
+        for p_ in out[2]:
+            lits.append(lambda cid, p_=p_: qorth_lit(cid, p_))
+    elif kind == "DTucker" and not (kw["init"] == "random" and kw["n_iter_max"] == 0) and prod(s) <= 24 and case["seed"] % 4 == 0:
+        X = data_tensor(s, case["seed"], kind=kw.get("data", "normal"))
+        core, factors = out
+        lits.append(lambda cid: qtucker_lit(cid, X, core, factors, list(range(len(s)))))
+    return lits
+
+
 # ----------------------------------------------------------------------------- observing the implementation
 def shp(a):
     return tuple(int(x) for x in np.shape(a))
@@ -559,10 +622,113 @@ def pred_structure(case, shapes, out):
     return None
 
 
+# --- Tucker / partial_tucker: every stopping path (tol falsy = cap exit, tol huge = convergence exit), fixed factors, mask, SVD methods
+def project(X, factors, modes):
+    """X x_m U_m^T over the listed modes"""
+    out = X
+    for m, f in zip(modes, factors):
+        out = np.moveaxis(np.tensordot(f.T, out, axes=(1, m)), 0, m)
+    return out
+
+
+def tucker_cases(tier, rng):
+    quick = tier == "quick"
+    shapes = [(3, 4, 2), (4, 3), (2, 3, 2, 3)] if quick else [(3, 4, 2), (4, 3), (2, 3, 2, 3), (5, 2, 4), (1, 3, 3), (3, 3, 3, 2)]
+    for s in shapes:
+        n = len(s)
+        for entry in ("tucker", "partial_tucker"):
+            mode_sets = [None] if entry == "tucker" else [None, [0], [n - 1], list(range(1, n)), [n - 1, 0]]
+            for modes in mode_sets:
+                for init in ("svd", "random"):
+                    for tol in (0, None, 1e10, 1e-5):
+                        for nit in (1, 2, 3, 5):
+                            if rng.random() < (0.75 if quick else 0.3):
+                                continue
+                            k = n if modes is None else len(modes)
+                            rank = [rng.choice([1, 2, 3, 5]) for _ in range(k)]
+                            yield dict(entry=entry, shape=s, modes=modes, rank=rank, init=init, tol=tol, n_iter_max=nit, seed=rng.randrange(10 ** 6),
+                                       svd=rng.choice(["truncated_svd", "truncated_svd", "symeig_svd", "randomized_svd"]), fixed=None, mask=False)
+        # fixed factors (orthonormal, user supplied) and missing values
+        for fixed in ([0], [n - 1], list(range(n - 1))):
+            for nit in (1, 3):
+                if quick and rng.random() < 0.5:
+                    continue
+                rank = [max(1, min(d, 1 + (k + rng.randrange(2)) % 3)) for k, d in enumerate(s)]      # ranks that differ between modes
+                yield dict(entry="tucker", shape=s, modes=None, rank=rank, init="user", tol=rng.choice([0, 1e-5, 1e10]), n_iter_max=nit,
+                           seed=rng.randrange(10 ** 6), svd="truncated_svd", fixed=fixed, mask=False)
+        for entry in ("tucker", "partial_tucker"):
+            for nit in (1, 3):
+                yield dict(entry=entry, shape=s, modes=None, rank=[min(2, d) for d in s], init="svd", tol=rng.choice([0, 1e-5]), n_iter_max=nit,
+                           seed=rng.randrange(10 ** 6), svd="truncated_svd", fixed=None, mask=True)
+
+
+def run_tucker_case(tc):
+    from tensorly import decomposition as D
+    from tensorly.decomposition._tucker import partial_tucker
+    r = np.random.RandomState(tc["seed"])
+    s = tuple(tc["shape"])
+    X = r.standard_normal(s)
+    kw = dict(n_iter_max=tc["n_iter_max"], tol=tc["tol"], svd=tc["svd"], random_state=tc["seed"])
+    init = tc["init"]
+    fixed_in = None
+    if init == "user":
+        fs = [np.linalg.qr(r.standard_normal((d, k)))[0] for d, k in zip(s, tc["rank"])]
+        init = (r.standard_normal(tc["rank"]), fs)
+        fixed_in = [np.array(f, copy=True) for f in fs]
+    if tc["mask"]:
+        kw["mask"] = (r.random_sample(s) > 0.15).astype(float)
+    if tc["entry"] == "tucker":
+        if tc["fixed"] is not None:
+            kw["fixed_factors"] = list(tc["fixed"])
+        st, out = C.call_impl(D.tucker, X, list(tc["rank"]), timeout=60, init=init, **kw)
+        if st == "ok":
+            out = (out[0], list(out[1]))
+    else:
+        st, out = C.call_impl(partial_tucker, X, list(tc["rank"]), timeout=60, modes=tc["modes"], init=init, **kw)
+        if st == "ok":
+            out = (out[0][0], list(out[0][1]))
+    return st, out, X, fixed_in
+
+
+def pred_tucker_case(tc, st, out, X, fixed_in):
+    if st != "ok":
+        return f"raised: {out}", "C08_tucker_runs"
+    core, factors = out
+    s = tuple(tc["shape"])
+    modes = list(range(len(s))) if tc["modes"] is None else list(tc["modes"])
+    if len(factors) != len(modes):
+        return f"{len(modes)} modes but {len(factors)} factors", "C08_tucker_shapes"
+    want_core = list(s)
+    for m, f, rk in zip(modes, factors, tc["rank"]):
+        c = min(rk, s[m])
+        if f.shape != (s[m], c):
+            return f"factor of mode {m} has shape {f.shape}, expected {(s[m], c)}", "C08_tucker_shapes"
+        want_core[m] = c
+    if tuple(core.shape) != tuple(want_core):
+        return f"core has shape {core.shape}, expected {tuple(want_core)}", "C08_tucker_shapes"
+    if not (np.all(np.isfinite(core)) and all(np.all(np.isfinite(f)) for f in factors)):
+        return "non-finite output", "C08_tucker_finite"
+    tol = 1e-6 if tc["svd"] == "symeig_svd" else TOL        # eigh of the Gram matrix squares the condition number
+    for m, f in zip(modes, factors):
+        e = orthonormal_cols(f)
+        if e > tol:
+            return f"factor of mode {m} not orthonormal (residual {e:.2e})", "C08_tucker_orthonormal"
+    if tc["fixed"] is not None:
+        for m in tc["fixed"]:
+            if not np.array_equal(factors[m], fixed_in[m]):
+                return f"fixed factor {m} was changed", "C08_tucker_fixed_kept"
+    if not tc["mask"]:
+        # core = projection of the data onto the RETURNED factors (with a mask the data are re-imputed: not observable)
+        e = float(np.max(np.abs(project(X, factors, modes) - core))) / max(1.0, float(np.max(np.abs(X))))
+        if e > TOL:
+            return f"core is not the projection of the data onto the returned factors (residual {e:.2e})", "C08_tucker_core_projection"
+    return None
+
+
 # --- normalisation contract
 CPFUNS = ("parafac", "non_negative_parafac", "non_negative_parafac_hals")
 DRIVER = {"parafac": "Parafac", "non_negative_parafac": "NnMu", "non_negative_parafac_hals": "NnHals"}
-INITK = {"random": "InitRandom", "svd": "InitSvd", "user": "InitUser"}
+INITK = {"random": "InitRandom", "svd": "InitSvd", "user": "InitUser", "refit": "InitUser"}
 
 
 class NormSpy:
@@ -616,8 +782,17 @@ def run_norm_case(nc):
     fs = [r.random_sample((d, R)) + 0.2 for d in s]
     X = np.einsum(*[x for k, f in enumerate(fs) for x in (f, [k, len(s)])], list(range(len(s)))) + 0.01 * r.random_sample(s)
     init = nc["init"]
+    init_tensor = None
     if init == "user":
-        init = (r.random_sample(R) + 0.5, [r.random_sample((d, R)) + 0.3 for d in s])
+        init = (r.random_sample(R) + 0.5, [r.random_sample((d, R)) + 0.3 for d in s])      # NON-unit weights
+        init_tensor = cp_full(*init)
+    elif init == "refit":
+        # multi-step sequence: the result of a normalize_factors=True run (non-unit weights, unit columns) is fed back as init
+        st0, first = C.call_impl(fn, X, R, timeout=60, n_iter_max=2, tol=0, normalize_factors=True, init="random", random_state=nc["seed"] + 1)
+        if st0 != "ok":
+            return dict(st=st0, out=first, last=None, X=X, errors=None, n_norm=0, ends_norm=False, cb_fired=False, init_tensor=None)
+        init = CPTensor((np.array(first.weights, copy=True), [np.array(f, copy=True) for f in first.factors]))
+        init_tensor = cp_full(init.weights, init.factors)
     kw = dict(n_iter_max=nc["n_iter_max"], tol=nc["tol"], normalize_factors=nc["normalize_factors"], init=init,
               random_state=nc["seed"], return_errors=True)
     if nc.get("fixed"):
@@ -628,6 +803,8 @@ def run_norm_case(nc):
     cb_stop = nc.get("cb_stop")
     if nc["fn"] == "parafac" and (nc.get("callback") or cb_stop is not None):
         def cb(cp, err):
+            if not isinstance(cp, CPTensor):
+                cp = cp[0]               # with sparsity= the callback receives (cp_tensor, sparse_component)
             states.append((np.array(cp.weights, copy=True), [np.array(f, copy=True) for f in cp.factors]))
             # the first call happens before the loop; call k+1 follows sweep k
             if cb_stop is not None and len(states) - 2 == cb_stop:
@@ -638,10 +815,12 @@ def run_norm_case(nc):
     with NormSpy() as spy:
         st, out = C.call_impl(fn, X, R, timeout=60, **kw)
     errors = None
-    if st == "ok" and not isinstance(out, CPTensor):
+    if st == "ok" and not isinstance(out, CPTensor) and isinstance(out[1], list):
         out, errors = out
+    if st == "ok" and not isinstance(out, CPTensor):
+        out = out[0]                     # sparsity=: (cp_tensor, sparse_component)
     res = dict(st=st, out=out, last=(states[-1] if states else None), X=X, errors=errors, n_norm=len(spy.outputs),
-               ends_norm=False, cb_fired=fired[0])
+               ends_norm=False, cb_fired=fired[0], init_tensor=init_tensor)
     if st == "ok":
         res["ends_norm"] = spy.is_last_output(out.weights, out.factors)
     return res
@@ -820,6 +999,12 @@ def pred_norm(nc, res):
     else:
         if not np.all(w == 1):
             return f"weights {w.tolist()} are not all ones (normalize_factors=False)", "C08_norm_weights_ones"
+    if res.get("init_tensor") is not None and (nc["n_iter_max"] == 0 or _all_fixed(nc)):
+        # no sweep ran: whatever moved between weights and factors, the represented tensor is still the user's
+        T0, T1 = res["init_tensor"], cp_full(w, fs)
+        e = float(np.max(np.abs(T0 - T1))) / max(1e-300, float(np.max(np.abs(T0))))
+        if e > 1e-9:
+            return f"no sweep ran but the output represents another tensor than the user initialisation (rel {e:.2e}): scale lost", "C08_norm_scale_in_weights"
     return None
 
 
@@ -834,8 +1019,7 @@ def cp_normalize_cases(tier, rng):
                    zero_col=rng.choice([None, None, (rng.randrange(order), rng.randrange(R))]), integer=rng.random() < 0.3)
 
 
-def run_cp_normalize_case(cc):
-    from tensorly.cp_tensor import cp_normalize, CPTensor
+def cp_normalize_inputs(cc):
     r = np.random.RandomState(cc["seed"])
     fs = [(r.randint(-3, 4, size=(d, cc["rank"])).astype(float) if cc["integer"] else r.standard_normal((d, cc["rank"]))) for d in cc["shape"]]
     if cc["zero_col"] is not None:
@@ -843,6 +1027,12 @@ def run_cp_normalize_case(cc):
         fs[k][:, c] = 0.0
     w = {"none": None, "ones": np.ones(cc["rank"]), "generic": r.random_sample(cc["rank"]) + 0.5,
          "signed": r.standard_normal(cc["rank"]) * (r.random_sample(cc["rank"]) < 0.8)}[cc["weights"]]
+    return w, fs
+
+
+def run_cp_normalize_case(cc):
+    from tensorly.cp_tensor import cp_normalize, CPTensor
+    w, fs = cp_normalize_inputs(cc)
     before = cp_full(np.ones(cc["rank"]) if w is None else w, fs)
     st, out = C.call_impl(cp_normalize, CPTensor((None if w is None else w.copy(), [f.copy() for f in fs])), timeout=60)
     return st, out, before
@@ -970,9 +1160,18 @@ def norm_cases(tier, rng):
                             continue
                         yield dict(base, fn="parafac", shape=s, rank=2, seed=rng.randrange(10 ** 6), init=init, n_iter_max=nit, tol=tol,
                                    normalize_factors=nf, callback=True, cb_stop=cb)
+    # seeded-defect class: a user initialisation with NON-unit weights (incl. the fed-back result of a normalised run), every cap, both exits
+    for fn in CPFUNS:
+        for s in shapes[:2]:
+            for nf in (False, True):
+                for tol, nit in ((0, 0), (0, 1), (0, 3), (1e10, 0), (1e10, 1), (1e10, 4), (1e-3, 8)):
+                    if quick and nf and rng.random() < 0.5:
+                        continue
+                    yield dict(base, fn=fn, shape=s, rank=2, seed=rng.randrange(10 ** 6), init="refit", n_iter_max=nit, tol=tol,
+                               normalize_factors=nf, callback=(fn == "parafac" and rng.random() < 0.5))
     # option combinations that reshape the sweep (orthogonalisation, line search, ridge term, missing values, HALS variants)
     optsets = [("parafac", dict(orthogonalise=True)), ("parafac", dict(orthogonalise=2)), ("parafac", dict(linesearch=True)),
-               ("parafac", dict(l2_reg=0.1)), ("parafac", dict(mask=True)), ("parafac", dict(linesearch=True, orthogonalise=True, l2_reg=0.01)),
+               ("parafac", dict(l2_reg=0.1)), ("parafac", dict(mask=True)), ("parafac", dict(sparsity=0.2)), ("parafac", dict(sparsity=3, mask=True)), ("parafac", dict(linesearch=True, orthogonalise=True, l2_reg=0.01)),
                ("non_negative_parafac", dict(mask=True)), ("non_negative_parafac_hals", dict(nn_modes=[0])),
                ("non_negative_parafac_hals", dict(sparsity_coefficients=[0.05, None, 0.05]))]     # (exact=True costs ~20 s per run)
     for fn, opts in optsets:
@@ -1007,7 +1206,17 @@ def _all_fixed(i):
 # no known finding at present: the classes "user initialisation and no sweep", "callback stop" of the CP drivers (repaired by
 # 3de556b) and "convergence exit" / "cap 0" of non_negative_tucker(_hals) / parafac2 (repaired by 1c1a684) are kept as corpus
 # inputs (corpus/C08/normalisation_exits.json)
-CLASSIFIERS = {}
+def clf_tucker_fixed_misaligned(f):
+    """tucker(fixed_factors=...) with a rank list whose entries at the positions partial_tucker reads differ from the entries of the updated modes"""
+    i = f["inputs"]
+    if not (i.get("tucker_case") and i.get("entry") == "tucker" and i.get("fixed")):
+        return False
+    s_, rank, fixed = list(i["shape"]), list(i["rank"]), list(i["fixed"])
+    nonfixed = [m for m in range(len(s_)) if m not in fixed]
+    return any(min(rank[j], s_[m]) != min(rank[m], s_[m]) for j, m in enumerate(nonfixed))
+
+
+CLASSIFIERS = {"tucker_fixed_factors_rank_misaligned": clf_tucker_fixed_misaligned}
 
 
 def _install_known_loader():
@@ -1085,6 +1294,12 @@ def _run(chk, rng):
             chk.sample({"entry": ENTRY[kind], "shape": list(s), "rank": str(spec), "options": {k: str(v_) for k, v_ in kw.items()},
                         "outcome": st, "observed_shapes": [list(x) for x in shapes] if shapes else str(v)[:100]})
         if st == "ok" and out is not None:
+            if kind in ("DTt", "DTr", "DParafac2", "DTucker") and cid % (16 if tier == "quick" else 6) == 0:
+                for mk in q_cases_for(case, out, cid):
+                    qid = len(cases)
+                    cases.append(mk(qid))
+                    meta.append(dict(kind="Q", shape=s, spec=spec, kw=dict(kw, of=kind)))
+                    chk.hist("q_checks", kind)
             r = pred_structure(case, shapes, out)
             chk.cov["evaluations"] += 1
             if r:
@@ -1119,6 +1334,36 @@ def _run(chk, rng):
             out = res["out"]
             chk.finding(f"tensorly.decomposition.{nc['fn']}", inputs, msg, pred,
                         observed=None if res["st"] != "ok" else {"weights": out.weights, "column_norms": [np.linalg.norm(f, axis=0) for f in out.factors]})
+    # ---- Tucker / partial_tucker on every stopping path, with fixed factors, mask, the three SVD methods
+    for tc in tucker_cases(tier, rng):
+        st, out, X, fixed_in = run_tucker_case(tc)
+        if st != "ok" and (str(out) == "timeout" or str(out).startswith("LinAlgError")):
+            timeouts += str(out) == "timeout"; skipped += str(out) != "timeout"
+            continue
+        chk.count(key=("tucker", tc["entry"], tc["shape"], tuple(tc["modes"] or ()), tuple(tc["rank"]), tc["init"], str(tc["tol"]), tc["n_iter_max"], tc["svd"],
+                       tuple(tc["fixed"] or ()), tc["mask"]))
+        chk.hist("tucker_exit", "cap (tol falsy)" if not tc["tol"] else "tol set")
+        chk.hist("svd_method", tc["svd"])
+        if not tc["mask"] and (tc["entry"] == "partial_tucker" or tc["fixed"] is not None):
+            cid = len(cases)
+            n_ = len(tc["shape"])
+            if tc["fixed"] is not None:
+                opl = f"(DTuckerFixed {C.nat_list(list(tc['shape']))} {C.nat_list(tc['rank'])} {C.nat_list(tc['fixed'])})"
+            else:
+                opl = f"(DPartialTucker {C.nat_list(list(tc['shape']))} {C.nat_list(tc['rank'])} {C.nat_list(list(range(n_)) if tc['modes'] is None else tc['modes'])})"
+            obs = [shp(out[0])] + [shp(f) for f in out[1]] if st == "ok" else None
+            cases.append(f"({cid}%N, {opl}, {shapes_lit(st, obs)})")
+            meta.append(dict(kind="DTuckerX", shape=tc["shape"], spec=tc["rank"], kw={k: v for k, v in tc.items() if k not in ("shape", "rank")}))
+        if st == "ok" and not tc["mask"] and prod(tc["shape"]) <= 36 and tc["seed"] % (3 if tier == "quick" else 2) == 0:      # ~0.3 s of exact arithmetic each
+            qid = len(cases)
+            modes_ = list(range(len(tc["shape"]))) if tc["modes"] is None else list(tc["modes"])
+            cases.append(qtucker_lit(qid, X, out[0], out[1], modes_, tol_orth=(1e-6 if tc["svd"] == "symeig_svd" else 1e-8)))
+            meta.append(dict(kind="Q", shape=tc["shape"], spec=tc["rank"], kw={k: v for k, v in tc.items() if k not in ("shape", "rank")}))
+            chk.hist("q_checks", tc["entry"])
+        r = pred_tucker_case(tc, st, out, X, fixed_in)
+        if r:
+            msg, pred = r
+            chk.finding("tensorly.decomposition." + tc["entry"], dict({k: (list(v) if isinstance(v, tuple) else v) for k, v in tc.items()}, tucker_case=True), msg, pred)
     # ---- the same contract for non_negative_tucker(_hals) (scale in the core), parafac2 and CMTF
     for nc in corpus_norm_cases("norm2_cases") + list(norm2_cases(tier, rng)):
         res = run_norm2_case(nc)
@@ -1153,6 +1398,11 @@ def _run(chk, rng):
             continue
         chk.count(key=("cp_normalize", cc["shape"], cc["rank"], cc["weights"], cc["zero_col"] is not None), nontrivial=prod(cc["shape"]) * cc["rank"] > 1)
         chk.hist("entry_point", "cp_normalize")
+        if st == "ok" and prod(cc["shape"]) <= 60:
+            qid = len(cases)
+            cases.append(qcpnorm_lit(qid, *cp_normalize_inputs(cc), out[0], out[1]))
+            meta.append(dict(kind="Q", shape=cc["shape"], spec=cc["rank"], kw={k: v for k, v in cc.items() if k not in ("shape", "rank")}))
+            chk.hist("q_checks", "cp_normalize")
         r = pred_cp_normalize(cc, st, out, before)
         if r:
             msg, pred = r
@@ -1179,8 +1429,10 @@ def _run(chk, rng):
     for i in sorted(failing):
         m = meta[i]
         what = ("corr:C08 (Model/Structure.v cp_run vs control flow of the CP drivers)" if m["kind"] == "DNorm" else
+                "corr:C08 (Model/Structure.v partial_tucker / tucker_fixed vs the implementation's shapes)" if m["kind"] == "DTuckerX" else
+                "corr:C08 (Model/StructureQ.v: orthonormality / core = projection / cp_normalize evaluated exactly on the outputs)" if m["kind"] == "Q" else
                 "corr:C08 (Model/Structure.v vs rank validators / decomposition shape flow)")
-        chk.disagreement(what, {"entry": ENTRY.get(m["kind"], "tensorly.decomposition." + str(m["kw"].get("fn"))), "shape": list(m["shape"]), "rank": str(m["spec"]),
+        chk.disagreement(what, {"entry": ENTRY.get(m["kind"], "tensorly.decomposition." + str(m["kw"].get("fn") or m["kw"].get("entry"))), "shape": list(m["shape"]), "rank": str(m["spec"]),
                                 "options": {k: str(v) for k, v in m["kw"].items()}, "case": cases[i][:400]})
     chk.cov["traces_validated_against_impl"] = n_eval
     chk.cov["skipped_ill_conditioned"] = skipped
@@ -1232,7 +1484,10 @@ def replay(payload):
         return 1
     C.reset_backends()
     inp = payload["inputs"]
-    if "zero_col" in inp and "weights" in inp:
+    if inp.get("tucker_case"):
+        tc = dict(inp); tc.pop("tucker_case")
+        r = pred_tucker_case(tc, *run_tucker_case(tc))
+    elif "zero_col" in inp and "weights" in inp:
         cc = dict(inp); cc["shape"] = tuple(cc["shape"]); cc["zero_col"] = tuple(cc["zero_col"]) if cc["zero_col"] is not None else None
         if cc.pop("tucker", False):
             r = pred_tucker_normalize(cc, *run_tucker_normalize_case(cc))
